@@ -187,3 +187,35 @@ func init() {
 	vHarness["VerifC10_FlushWhileLogging"] = VerifC10_FlushWhileLogging
 	vHarness["VerifC10_HistorySymbolicGeometry"] = VerifC10_HistorySymbolicGeometry
 }
+
+// Block sizes that are not powers of two, on a range holding `blocks` of them: the blocks handed to `blocks`
+// subscribers (with one release and re-allocation in between) never overlap and stay inside the port range.
+func VerifC10_DenseBlocks() {
+	m, _, _ := verifNATManager(false)
+	pps := []int{3, 5, 6, 7, 100, 1000}[ndPick("block-size", 6)]
+	blocks := vParam("blocks", 5)
+	m.portRangeStart, m.portsPerSubscriber = 10000, pps
+	m.portRangeEnd = m.portRangeStart + blocks*pps - 1 + ndPick("slack", 2)*(pps-1) // exact fit, or a partial block at the end
+	m.pool = m.pool[:0]
+	vAssume(m.AddPublicIP(net.IP{203, 0, 113, 9}) == nil)
+	ips := make([]net.IP, blocks)
+	for i := range ips {
+		ips[i] = net.IP{10, 0, 1, byte(i + 1)}
+	}
+	for i := 0; i < blocks-1; i++ {
+		_, err := m.AllocateNAT(ips[i])
+		vAssume(err == nil)
+		verifNATInvariant(m)
+	}
+	// one subscriber leaves, two arrive
+	vAssume(m.DeallocateNAT(ips[ndPick("leaves", blocks-1)]) == nil)
+	_, err := m.AllocateNAT(ips[blocks-1])
+	vAssert(err == nil, "exhaustion reported while blocks are free")
+	verifNATInvariant(m)
+	_, err = m.AllocateNAT(net.IP{10, 0, 2, 1})
+	vAssert(err == nil, "exhaustion reported while blocks are free")
+	verifNATInvariant(m)
+	vReach("end")
+}
+
+func init() { vHarness["VerifC10_DenseBlocks"] = VerifC10_DenseBlocks }
